@@ -393,7 +393,7 @@ def run_recover(case):
                     []).append((otid, t))
             for tid, (gt, grecs) in got.items():
                 o = orig.get(tid)
-                if restamped:
+                if True:
                     # fsrecover gives transactions whose id is not later
                     # than the one before a new, later id.  When damage
                     # changed the *id field* of a header into a later
@@ -416,7 +416,7 @@ def run_recover(case):
                             continue
                         moved = [otid for otid, t in cands if otid != tid
                                  and (t.end <= dstart or t.pos >= dend)]
-                        if moved:
+                        if moved and restamped:
                             viol.append((
                                 'recover-changes-transaction/restamped-'
                                 'after-damaged-id', '%s: input transaction '
